@@ -287,6 +287,22 @@ func checkCase(c Case) (Outcome, error) {
 			return out, fmt.Errorf("statement %d violates the database's dependency rules: %v\n  from: %s\n  plan:\n%s", i, err, newCatalogue(c, c.fromTables(), c.FromE), text.String())
 		}
 	}
+	// the same change set planned again (what `schema apply` does: once to show, once to apply) gives the same plan;
+	// a planner that edits its input would break the second one
+	again, err := planner.PlanChanges(context.Background(), "plan", changes, func(o *migrate.PlanOptions) {
+		o.Mode = migrate.PlanMode(c.Mode)
+		o.SchemaQualifier = new(string)
+	})
+	if err != nil {
+		return out, fmt.Errorf("planning the same change set a second time failed: %v", err)
+	}
+	var text2 strings.Builder
+	for i, pc := range again.Changes {
+		fmt.Fprintf(&text2, "    [%d] %s\n", i, strings.ReplaceAll(pc.Cmd, "\n", " "))
+	}
+	if text2.String() != text.String() {
+		return out, fmt.Errorf("planning the same change set a second time gives another plan (the planner changed its input)\n  first:\n%s  second:\n%s", text.String(), text2.String())
+	}
 	want := newCatalogue(c, c.toTables(), c.ToE)
 	if cat.String() != want.String() {
 		return out, fmt.Errorf("replaying the plan does not reach the desired catalogue:\n  got  %s\n  want %s\n  plan:\n%s", cat, want, text.String())
